@@ -164,6 +164,16 @@ func newVFlow(w *World, fns []*FuncInfo, isSource func(info *types.Info, c *ast.
 				for i, a := range c.Args {
 					if i < len(ps) {
 						flowExpr(a, []types.Object{ps[i]})
+						// what the callee stores through a pointer parameter is visible in the caller's variable
+						if _, isPtr := ps[i].Type().Underlying().(*types.Pointer); isPtr {
+							ae := unparen(a)
+							if u, ok := ae.(*ast.UnaryExpr); ok && u.Op == token.AND {
+								ae = u.X
+							}
+							if bo := baseObj(info, ae); bo != nil {
+								v.edge(ps[i], bo)
+							}
+						}
 					} else if len(ps) > 0 {
 						flowExpr(a, []types.Object{ps[len(ps)-1]}) // variadic
 					}
